@@ -1,10 +1,10 @@
 (* C20 handlers: same case lines and result format as harness/h_link.c (without the
    " oracle=..." suffix, which is the C driver's implementation-only check).
 
-   wk        { R <path> <flags> <nattr> { <name> <val> }* | D <path> }*  F <filter>  W all
-   wk        ...                                                         F <filter>  W list { <off> <len> }*
-   lk <idx>  ...                                                         F ~         W all | list ...
-   get       ...                                                         F <filter>
+   lfwk      { R <path> <flags> <nattr> { <name> <val> }* | D <path> }*  F <filter>  W all
+   lfwk      ...                                                         F <filter>  W list { <off> <len> }*
+   lflk <idx> ...                                                         F ~         W all | list ...
+   lfget     ...                                                         F <filter>
    lfconst *)
 open Model
 open Util
@@ -132,14 +132,14 @@ let run_case (lk : int) (toks : string list) : string =
   | _ -> "ERROR no W"
 
 let () =
-  register "wk" (fun toks -> run_case (-1) toks);
-  register "lk" (fun toks ->
+  register "lfwk" (fun toks -> run_case (-1) toks);
+  register "lflk" (fun toks ->
       match toks with
       | i :: tl -> run_case (int_of_string i) tl
-      | _ -> failwith "lk args");
-  (* get <mode> { table } { F <query> }* { B <szx> }* : the handler's body (one Uri-Query option per
+      | _ -> failwith "lflk args");
+  (* lfget <mode> { table } { F <query> }* { B <szx> }* : the handler's body (one Uri-Query option per
      F with these bytes; F ~ = none), then its Block2 reassembly for each szx *)
-  register "get" (fun toks ->
+  register "lfget" (fun toks ->
       let toks = (match toks with _mode :: tl -> tl | [] -> []) in
       let (tbl, rest) = build_table [] toks in
       let rec take_opts acc = function
